@@ -137,7 +137,12 @@ pub fn trie_for(case: &Case, spec: &Spec) -> SymTrie {
 }
 
 pub fn structure(ctx: &Ctx, p: &Pma<u32>, trie: Option<&SymTrie>) -> StructReport {
-    check_structure(p, trie, &Opts { transition_cap: ctx.transition_cap() })
+    check_structure(p, trie, &Opts { transition_cap: ctx.transition_cap(), outputs_head_only: false })
+}
+
+/// Same, but only the head of every output list is compared (C02 / C05 read nothing else).
+pub fn structure_head_only(ctx: &Ctx, p: &Pma<u32>, trie: Option<&SymTrie>) -> StructReport {
+    check_structure(p, trie, &Opts { transition_cap: ctx.transition_cap(), outputs_head_only: true })
 }
 
 /// Records structure statistics into the evidence counters.
